@@ -19,7 +19,7 @@ static std::string op_brief(const OpResult& o)
 static Plan gen_c06(uint64_t seed, int64_t index, bool thorough)
 {
     Rng rng(hash_seed(seed, "C06", index));
-    std::vector<std::string> pk = keys_for({ "G1", "G2", "G3", "G4", "G5", "G6", "G7", "G8", "G9", "G10", "G11", "G12", "G13", "G14", "G15", "G16", "G17", "G18", "G19", "G20", "G21", "G22", "G23", "T1" });
+    std::vector<std::string> pk = keys_for({ "G1", "G2", "G3", "G4", "G5", "G6", "G7", "G8", "G9", "G10", "G11", "G12", "G13", "G14", "G15", "G16", "G17", "G18", "G19", "G20", "G21", "G22", "G23", "G24", "G25", "T1" });
     std::vector<std::string> rk = regex_keys();
     PlanOp op;
     std::string mode;
@@ -213,7 +213,7 @@ static std::string first_line(const std::string& s)
 static Plan gen_c09(uint64_t seed, int64_t index, bool thorough)
 {
     Rng rng(hash_seed(seed, "C09", index));
-    std::vector<std::string> pk = keys_for({ "G2", "G3", "G4", "G5", "G8", "G9", "G10", "G10", "G12", "G15", "G15", "G17", "G17", "G19", "G19", "G20", "G20", "G22", "G22", "G23", "G23" });
+    std::vector<std::string> pk = keys_for({ "G2", "G3", "G4", "G5", "G8", "G9", "G10", "G10", "G12", "G15", "G15", "G17", "G17", "G19", "G19", "G20", "G20", "G22", "G22", "G23", "G23", "G24", "G24", "G25" });
     std::string key = rng.pick(pk);
     { std::vector<std::string> xk = random_grammar_keys(); if (!xk.empty() && rng.chance(1, 2)) key = rng.pick(xk); }   // thorough tier: seeded random grammars
     const ref::Model* m = model_for(grammar_of(key));
@@ -350,7 +350,7 @@ static std::vector<Violation> case_c09(const Plan& p, CaseCtx& cx)
 static Plan gen_c10(uint64_t seed, int64_t index, bool thorough)
 {
     Rng rng(hash_seed(seed, "C10", index));
-    std::vector<std::string> pk = keys_for({ "G1", "G2", "G4", "G4", "G5", "G5", "G6", "G6", "G7", "G9", "G9", "G10", "G10", "G11", "G12", "G13", "G14", "G15", "G16", "G17", "G18", "G19", "G20", "G21", "G22", "G23", "T1" }, false);
+    std::vector<std::string> pk = keys_for({ "G1", "G2", "G4", "G4", "G5", "G5", "G6", "G6", "G7", "G9", "G9", "G10", "G10", "G11", "G12", "G13", "G14", "G15", "G16", "G17", "G18", "G19", "G20", "G21", "G22", "G23", "G24", "G25", "T1" }, false);
     std::string key = rng.pick(pk);
     { std::vector<std::string> xk = random_grammar_keys(); if (!xk.empty() && rng.chance(1, 2)) key = rng.pick(xk); }   // thorough tier: seeded random grammars
     const ref::Model* m = model_for(grammar_of(key));
@@ -393,7 +393,27 @@ static Plan gen_c10(uint64_t seed, int64_t index, bool thorough)
         else if (!stretch_one_lexeme(op, rng, *m, size_t(65530 + rng.below(600)))) op.toks[at].ws.assign(70000, ' ');
         if (rng.chance(1, 2)) add_token_faults(op, rng, 1, *m);      // and an error message out there
     }
-    return single_op_plan("C10", seed, index, mode, op);
+    Plan p10 = single_op_plan("C10", seed, index, mode, op);
+    if (mode != "far_positions" && rng.chance(1, 10))
+    {
+        // a caller that logs every call to ONE long-lived std::ostream: an earlier call on the same parser fails on a
+        // byte that has no printable form, then the judged call reports at its own positions. Whatever formatting state
+        // the earlier message left on the stream must not reach the [line:column] of the later one.
+        PlanOp pre = make_sentence_op(rng, key, sh);
+        pre.use_raw = true;
+        static const std::vector<std::string> bad = { std::string("\x01", 1), std::string("\x7f", 1), std::string("\x80", 1), std::string("\xff", 1), std::string("\x1b", 1), std::string("\x00", 1) };
+        pre.raw = rng.pick(bad);
+        pre.faults.clear(); pre.verbose = false; pre.stream = STR_SIM; pre.buffer = BUF_STRING; pre.heap = false;
+        PlanOp judged = p10.tasks[0].ops[0];
+        judged.stream = STR_SIM;
+        if (judged.skip_ws && !judged.toks.empty()) { judged.toks[0].ws = std::string(size_t(rng.range(9, 14)), judged.skip_nl && rng.chance(1, 2) ? '\n' : ' ') + judged.toks[0].ws; }
+        p10.tasks[0].ops.clear();
+        p10.tasks[0].ops.push_back(pre);
+        p10.tasks[0].ops.push_back(judged);
+        p10.share_streams = true;
+        p10.mode = mode + "+shared_stream_history";
+    }
+    return p10;
 }
 
 static bool parse_prefix(const std::string& line, int& l, int& c)
@@ -410,9 +430,10 @@ static std::vector<Violation> case_c10(const Plan& p, CaseCtx& cx)
 {
     std::vector<Violation> vs;
     RunResult rr = exec_plan(p, kFlags);
-    const OpResult& o = rr.tasks[0][0];
+    const OpResult& o = rr.tasks[0].back();      // (a shared-stream history puts an earlier, failing call in front)
     account(cx, p, rr, o.rend.faults_fired > 0);
     if (cx.st) cx.st->add("mode." + p.mode);
+    if (cx.st && rr.tasks[0].size() > 1) cx.st->add("probe.judged_call_logs_to_a_stream_used_by_an_earlier_failing_call");
     if (o.out.exc != 0) { if (cx.st) cx.st->add("unjudged.exception"); return vs; }
     ref::RefResult r = ref_for(o);
     if (r.step_limit) return vs;
@@ -483,7 +504,7 @@ static std::vector<Violation> case_c10(const Plan& p, CaseCtx& cx)
 static Plan gen_c08(uint64_t seed, int64_t index, bool thorough)
 {
     Rng rng(hash_seed(seed, "C08", index));
-    std::vector<std::string> pk = keys_for({ "G1", "G1", "G6", "G7", "G7", "G11", "G11", "G13", "G13", "G14", "G15", "G16", "G17", "G18", "G19", "G20", "G21", "G22", "G23", "T1" });
+    std::vector<std::string> pk = keys_for({ "G1", "G1", "G6", "G7", "G7", "G11", "G11", "G13", "G13", "G14", "G15", "G16", "G17", "G18", "G19", "G20", "G21", "G22", "G23", "G24", "G25", "T1" });
     std::string key = rng.pick(pk);
     const ref::Model* m = model_for(grammar_of(key));
     OpShape sh;
